@@ -38,7 +38,7 @@ from . import maildir_crash as mc
 IMAPFLAG = {'S': '\\Seen', 'T': '\\Deleted', 'F': '\\Flagged', 'R': '\\Answered', 'D': '\\Draft'}
 CLAUSES = ('C15_AckedSurvive', 'C15_AckedFlagsPersist', 'C15_NoUidReuse',
            'C15_ControlFilesReadable', 'C15_AckedCreatesPersist',
-           'C15_AckedSubscriptionsPersist')
+           'C15_AckedSubscriptionsPersist', 'C15_AckedSameUid')
 EXDEV = 'TempDirOtherFilesystemEXDEV'
 
 # model mutants: cfg -> the invariant TLC must report (None: must pass - writing the uidlist
